@@ -344,6 +344,43 @@ func (c *Ctx) checkKeyWriterPrecedence(rule string) {
 			}
 		}
 	}
+	// The search may live in a helper that is handed the maps unchanged (`value(k, maps)`): the
+	// rule is then decided in that helper, on its own slice-of-maps parameter.
+	if maps != nil {
+		hasLookup := false
+		instrsOf(fn, func(in ssa.Instruction) {
+			if lk, isLk := in.(*ssa.Lookup); isLk {
+				if ld, isLd := lk.X.(*ssa.UnOp); isLd {
+					if ia, isIA := ld.X.(*ssa.IndexAddr); isIA && canon(ia.X) == ssa.Value(maps) {
+						hasLookup = true
+					}
+				}
+			}
+		})
+		if !hasLookup {
+			var helper *ssa.Function
+			var hp *ssa.Parameter
+			instrsOf(fn, func(in ssa.Instruction) {
+				call, isCall := in.(*ssa.Call)
+				if !isCall {
+					return
+				}
+				g := staticCallee(call)
+				if g == nil || !c.inModule(g) || g.Blocks == nil {
+					return
+				}
+				for i, a := range call.Call.Args {
+					if canon(a) == ssa.Value(maps) && i < len(g.Params) {
+						helper, hp = g, g.Params[i]
+					}
+				}
+			})
+			if helper != nil {
+				fn, maps = helper, hp
+				c.sawFunc(c.fnKey(fn))
+			}
+		}
+	}
 	ok := false
 	why := "no lookup of the key in maps[j] found"
 	instrsOf(fn, func(in ssa.Instruction) {
